@@ -66,6 +66,12 @@ func buildLayers(w *world, thorough bool) []layer {
 			}
 			return out
 		}})
+	// F: a failed child must not influence its parent through anything but gas
+	fp := failPrograms()
+	fm := failMatrix()
+	ls = append(ls, layer{name: "F", what: fmt.Sprintf("%d parent/child pairs: parent = CALL|CALL+value|CALLCODE|DELEGATECALL|STATICCALL(child, 2,000,000 gas); SSTORE(1:=status); SSTORE(0:=1), child = every prefix of <= 2 symbols of the 38-symbol prefix alphabet followed by each of 5 failure kinds (INVALID, REVERT, out of gas, stack underflow, bad jump); x %d configurations; every case whose child failed is compared with the control run whose child is the bare failure", len(fp), len(fm)),
+		n: len(fp), gen: func(i int) (string, []byte) { return fp[i].name, fp[i].parent }, configs: func(int) []config { return fm },
+		aux: func(i int) []byte { return fp[i].child }, control: func(i int) (string, []byte) { return fp[i].controlKey, fp[i].controlCode }})
 	// K: several creates in one call tree
 	kp := createPrograms()
 	km := createMatrix()
@@ -179,8 +185,17 @@ type wmsg struct {
 	Samples []map[string]interface{} `json:"samples,omitempty"`
 }
 
+// the child codes of the program being run (for replay records)
+var curAux, curControlAux []byte
+
 func replayOf(l *layer, name string, code []byte, c config) map[string]interface{} {
 	m := map[string]interface{}{"layer": l.name, "program": name, "code": hx(code), "entry": entryName[c.entry], "gas": c.gas, "value": c.value, "input": hx(c.input)}
+	if l.aux != nil {
+		m["child_code"] = hx(curAux)
+		if l.control != nil {
+			m["control_child_code"] = hx(curControlAux)
+		}
+	}
 	if c.to != nil {
 		m["to"] = hx(c.to[:])
 	}
@@ -237,6 +252,7 @@ func workerMain(spec string) {
 	var stats []*layerStats
 	counts := map[string]int{}
 	sigs := map[string]bool{}
+	controls := map[string]*result{}
 	var samples []map[string]interface{}
 	capped := ""
 	base := 0
@@ -273,6 +289,14 @@ outer:
 				break outer
 			}
 			name, code := l.gen(i)
+			w.aux, curAux, curControlAux = nil, nil, nil
+			if l.aux != nil {
+				w.aux = l.aux(i)
+				curAux = w.aux
+				if l.control != nil {
+					_, curControlAux = l.control(i)
+				}
+			}
 			if !oneCase { // the single case of a confirmation run belongs to a program the restarted worker counts
 				ls.Programs++
 			}
@@ -295,6 +319,23 @@ outer:
 					ref, preRoot = refSelf, rootSelf
 				}
 				fs, cls, a, nruns := evaluate(w, ref, preRoot, code, c)
+				if l.control != nil && a.post != nil && !a.panicked && !a.canceled {
+					// differential against the control run (child = the bare failure), cached per parent/failure/config
+					ckey, caux := l.control(i)
+					ckey += "|" + c.String()
+					ctl := controls[ckey]
+					if ctl == nil {
+						saved := w.aux
+						w.aux = caux
+						ctl = run(w, w.open(code), w.open(code).IntermediateRoot(false), code, c, modeFresh)
+						w.aux = saved
+						controls[ckey] = ctl
+						nruns++
+					}
+					if k, wh := compareWithControl(a, ctl, strings.Contains(ckey, "REVERT")); k != "" {
+						fs = append(fs, finding{"failed-child-leaks-into-parent:" + k, wh})
+					}
+				}
 				ls.Cases++
 				if memdbg && ls.Cases%20000 == 0 {
 					var ms runtime.MemStats
@@ -851,6 +892,8 @@ func replayMain(r *vk.Run) {
 		Value   int64  `json:"value"`
 		Input   string `json:"input"`
 		To      string `json:"to"`
+		Child   string `json:"child_code"`
+		Control string `json:"control_child_code"`
 	}
 	r.LoadReplay(&rp)
 	code, _ := hex.DecodeString(rp.Code)
@@ -869,6 +912,9 @@ func replayMain(r *vk.Run) {
 	syscall.Setrlimit(syscall.RLIMIT_AS, &syscall.Rlimit{Cur: lim, Max: lim})
 	startWatchdog()
 	w := buildWorld()
+	if rp.Child != "" {
+		w.aux, _ = hex.DecodeString(rp.Child)
+	}
 	ref, preRoot := w.pristine, w.root
 	if c.entry != entCreate {
 		ref = w.open(code)
@@ -876,6 +922,16 @@ func replayMain(r *vk.Run) {
 	}
 	fmt.Printf("replay: %s  [%s]  code=%s\n", rp.Program, c, rp.Code)
 	fs, cls, a, _ := evaluate(w, ref, preRoot, code, c)
+	if rp.Control != "" && a.post != nil {
+		saved := w.aux
+		w.aux, _ = hex.DecodeString(rp.Control)
+		ctl := run(w, w.open(code), w.open(code).IntermediateRoot(false), code, c, modeFresh)
+		w.aux = saved
+		fmt.Printf("control: err=%q left=%d world delta: %s\n", ctl.err, ctl.left, ctl.post)
+		if k, wh := compareWithControl(a, ctl, strings.Contains(rp.Program, "REVERT")); k != "" {
+			fs = append(fs, finding{"failed-child-leaks-into-parent:" + k, wh})
+		}
+	}
 	fmt.Printf("outcome=%s err=%q left=%d ret=%x steps=%d frames=%d depth=%d\n", cls, a.err, a.left, a.ret, a.steps, a.frames, a.maxDepth)
 	if a.post != nil {
 		fmt.Printf("world delta: %s\n", a.post)
